@@ -1339,3 +1339,108 @@ fn nodrop_cases_n<const N: usize>(st: &mut FStats) -> R {
     st.cases.insert(hash64(&format!("nodrop{}", N)));
     Ok(())
 }
+
+// ---------------------------------------------------------------------------------------------
+// G. copy-on-write whose release of the old handle runs a panicking destructor: the Clone impl lets go of the only
+// sibling, so the handle being replaced has become the last owner of the old value by the time make_mut / make_unique
+// releases it; that value's destructor panics. Whatever happens, the caller's handle must stay valid.
+
+static SIBLING: std::sync::Mutex<Option<Arc<Sib>>> = std::sync::Mutex::new(None);
+static SIB_ALIVE: std::sync::atomic::AtomicI64 = std::sync::atomic::AtomicI64::new(0);
+static SIB_DROPS: std::sync::atomic::AtomicI64 = std::sync::atomic::AtomicI64::new(0);
+static SIB_PANIC: std::sync::atomic::AtomicBool = std::sync::atomic::AtomicBool::new(false);
+
+pub struct Sib {
+    tag: u64,
+    magic: u64,
+}
+impl Sib {
+    fn make(tag: u64) -> Sib {
+        SIB_ALIVE.fetch_add(1, std::sync::atomic::Ordering::Relaxed);
+        Sib { tag, magic: tag ^ 0x51B1_51B1 }
+    }
+    fn ok(&self) -> bool {
+        self.magic == self.tag ^ 0x51B1_51B1
+    }
+}
+impl Clone for Sib {
+    fn clone(&self) -> Sib {
+        // let go of the sibling handle: the handle being made unique is now the last owner of `self`
+        let sib = SIBLING.lock().unwrap_or_else(|e| e.into_inner()).take();
+        drop(sib);
+        Sib::make(self.tag + 1000)
+    }
+}
+impl Drop for Sib {
+    fn drop(&mut self) {
+        SIB_ALIVE.fetch_sub(1, std::sync::atomic::Ordering::Relaxed);
+        SIB_DROPS.fetch_add(1, std::sync::atomic::Ordering::Relaxed);
+        self.magic = 0;
+        if SIB_PANIC.swap(false, std::sync::atomic::Ordering::Relaxed) {
+            panic!("destructor of the old value panics");
+        }
+    }
+}
+
+pub fn cow_drop_panics(site: usize, st: &mut FStats) -> R {
+    use std::sync::atomic::Ordering::Relaxed;
+    let what = format!(
+        "{}: Clone releases the only sibling, then the old value's destructor panics",
+        ["Arc::make_mut", "Arc::make_unique", "OffsetArc::make_mut"][site]
+    );
+    shadow::reset();
+    let alive0 = SIB_ALIVE.load(Relaxed);
+    let drops0 = SIB_DROPS.load(Relaxed);
+    let mut a = shadow::tracked(|| Arc::new(Sib::make(7)));
+    *SIBLING.lock().unwrap_or_else(|e| e.into_inner()) = Some(shadow::tracked(|| a.clone()));
+    SIB_PANIC.store(true, Relaxed);
+    let mut off: Option<OffsetArc<Sib>> = None;
+    let r = shadow::tracked(|| {
+        catch(|| match site {
+            0 => {
+                Arc::make_mut(&mut a).tag += 0;
+            }
+            1 => {
+                let _ = Arc::make_unique(&mut a);
+            }
+            _ => {
+                let mut o = Arc::into_raw_offset(a.clone());
+                // the temporary clone above is a second sibling: let it be the one Clone releases last
+                off = None;
+                let _ = o.make_mut();
+                off = Some(o);
+            }
+        })
+    });
+    SIB_PANIC.store(false, Relaxed);
+    let _ = SIBLING.lock().unwrap_or_else(|e| e.into_inner()).take();
+    st.counts.bump(if r.is_err() { "faults.cowdrop.propagated" } else { "faults.cowdrop.completed" });
+    // the handle the caller still holds must be valid: readable, a sole owner or not, but alive
+    ensure!(a.ok(), "C07,C08,C01", "faults", "{}: the caller's handle reads a destroyed value afterwards", what);
+    if let Some(o) = &off {
+        ensure!(o.ok(), "C07,C08,C01", "faults", "{}: the OffsetArc reads a destroyed value afterwards", what);
+    }
+    shadow::tracked(|| {
+        drop(off);
+        drop(a);
+    });
+    let made = (SIB_DROPS.load(Relaxed) - drops0) + (SIB_ALIVE.load(Relaxed) - alive0);
+    ensure!(
+        SIB_ALIVE.load(Relaxed) == alive0 && made >= 1,
+        "C07,C08,C01",
+        "faults",
+        "{}: {} values still alive after every handle was released (each must be destroyed exactly once)",
+        what,
+        SIB_ALIVE.load(Relaxed) - alive0
+    );
+    if shadow::active() {
+        if let Some(x) = shadow::take_findings().first() {
+            return viol("C07,C08,C01", "faults", format!("{}: allocator monitor: {:?}", what, x));
+        }
+        ensure!(shadow::live_count() == 0, "C07,C08,C01", "faults", "{}: {} blocks left behind", what, shadow::live_count());
+    }
+    st.counts.bump("faults.cowdrop.runs");
+    st.cases.insert(hash64(&format!("cowdrop|{}", site)));
+    Ok(())
+}
+
